@@ -115,6 +115,8 @@ func ReceiveDirectInvoke(w http.ResponseWriter, r *http.Request, token interop.T
 		}
 	}
 
+	// like the payload limit above, the response mode must not be inherited from an earlier request
+	InvokeResponseMode = interop.InvokeResponseModeBuffered
 	if valueFromHeader := r.Header.Get(InvokeResponseModeHeader); valueFromHeader != "" {
 		invokeResponseMode, err := convertToInvokeResponseMode(valueFromHeader)
 		if err != nil {
